@@ -4,3 +4,14 @@ import TypifyModel.Model.Integer
 import TypifyModel.Generated.Tables
 import TypifyModel.Proofs.C10
 import TypifyModel.Proofs.C10Findings
+import TypifyModel.Model.Names
+import TypifyModel.Proofs.C08
+import TypifyModel.Proofs.C08Findings
+import TypifyModel.Model.Cycles
+import TypifyModel.Proofs.C07
+import TypifyModel.Model.Json
+import TypifyModel.Model.Ir
+import TypifyModel.Model.Serde
+import TypifyModel.Model.SerdeSer
+import TypifyModel.Model.StrConv
+import TypifyModel.Proofs.C11
